@@ -135,7 +135,9 @@ def tie_filterm(case):
     return t
 
 
-GEN = {'tie-filterm': (gen_filterm, tie_filterm)}
+from harness.props import c02_multi  # noqa: E402
+
+GEN = {'tie-filterm': (gen_filterm, tie_filterm), 'tie-multi': (c02_multi.gen_multi, c02_multi.tie_multi)}
 
 DIRECTED = [
     # D = [[0,1],[0,0]] at every frequency: conjugating without transposing is not the adjoint (Bad.filterM_conj_only_not_adjoint)
@@ -152,7 +154,7 @@ DIRECTED = [
 
 
 def run_ties(ctx, counts):
-    cases = [dict(c) for c in DIRECTED]
+    cases = [dict(c) for c in DIRECTED] + [dict(c) for c in c02_multi.DIRECTED]
     for fam, k in counts.items():
         for _ in range(k):
             cases.append(GEN[fam][0](ctx.rng))
